@@ -172,7 +172,7 @@ def regs_of(code, size, mode):
 
 # ------------------------------------------------------------------------------------------------ memory, immediates
 # (base, index, scale, displacement); register numbers; base "rip" only in long mode
-MEM_SHAPES = {"x64": [(0, None, None, None), (3, 1, 4, 16), (13, 9, 2, -300), ("rip", None, None, 64)],
+MEM_SHAPES = {"x64": [(0, None, None, None), (3, 1, 4, 16), (13, 9, 2, -300), ("rip", None, None, 64), (0, 10, 8, 8), (12, 1, 1, None)],
               "x86": [(0, None, None, None), (3, 1, 4, 16), (5, 6, 2, -300)]}
 DEFAULT_MEM = 1
 
